@@ -11,6 +11,7 @@ CONSTANTS
   MaxArr = 3
   MaxT = 2
   REPS = {1}
+  Garbage = FALSE
   Staged = FALSE
   PsFree = FALSE
   InitSets = {{"p1"}}
